@@ -57,6 +57,8 @@ def _filter_map_form(prog, root, bb):
 
 def rule_r15(ctx, prog, rule="R15"):
     n = 0
+    if hasattr(prog, "inlined_view"):
+        prog = prog.inlined_view()       # a trait method whose body was moved into a private free function is read in place
     for name, spec in TRAVERSALS.items():
         root = prog.method("MaybeNanExt", name)
         n += 1
